@@ -34,7 +34,7 @@ class C07(PropBase):
                     yield dict(directed=directed, removal=removal, hist=h, family='int', functional=False)
 
     def n_random(self, tier):
-        return 1200 if tier == 'quick' else 25000
+        return 1200 if tier == 'quick' else 100000
 
     def random_cases(self, rnd, n):
         for _ in range(n):
